@@ -65,6 +65,8 @@ type cRig struct {
 	subGot  int32
 	subOn   bool
 	cb      int32
+	holdCh  chan struct{} // armed: the stream's Close blocks at its entry until the channel is closed
+	unheld  bool
 }
 
 const (
@@ -245,6 +247,7 @@ func clientOne(res *hlib.Result, r *cRig, trk *tracker, rec *hlib.Recorder, ops 
 			}
 		}
 		r.mu.Unlock()
+		r.unhold()
 		r.ep.Close()
 	}()
 	for i, o := range ops {
@@ -298,6 +301,12 @@ func clientOne(res *hlib.Result, r *cRig, trk *tracker, rec *hlib.Recorder, ops 
 			r.st.FeedEOF()
 		case "close":
 			r.ep.Close()
+		case "hold":
+			ch := make(chan struct{})
+			r.holdCh = ch
+			r.st.CloseGate = func() { <-ch }
+		case "unhold":
+			r.unhold()
 		}
 		// wait for quiescence: what the specification expects to have finished must finish
 		exp := o.Post
@@ -367,6 +376,13 @@ func clientOne(res *hlib.Result, r *cRig, trk *tracker, rec *hlib.Recorder, ops 
 		return 2
 	}
 	return 0
+}
+
+func (r *cRig) unhold() {
+	if r.holdCh != nil && !r.unheld {
+		r.unheld = true
+		close(r.holdCh)
+	}
 }
 
 func isDone(c *callState) bool {
